@@ -634,6 +634,9 @@ def extra_checks(ctx, cases_, impl_lines, model_lines_):
                 # "90 Minutes", a bare number = seconds): C20's interval literals
                 + xcheck.borrow(ctx, "C20", "the trigger's interval is what the configured literal says",
                                 lambda c: c[0] == 1, n=1500, seed_salt=11)
+                # ... whichever integer type the document's front-end delivers the bare number as (TOML: i64)
+                + xcheck.borrow(ctx, "C20", "a bare number of seconds in a TOML document is that interval",
+                                lambda c: c[0] == 1 and c[1] == 0 and c[3] == 2, n=200, seed_salt=61)
                 # a rotation the trigger asked for happens - also in the `background_rotation` build while the previous
                 # rotation is still running (C05's bursts on that build, some with a slow first rotation)
                 + xcheck.borrow(ctx, "C05", "a requested rotation is carried out, however long the previous one takes",
